@@ -747,7 +747,9 @@ def gen_level(rng, T, app, opts):
     lv.ports = list(leaves)
     # rSelf(..., rEnabledBy(x)): the table's own switch
     if T > 0 and rng.random() < opts.get("p_self", 0.0):
-        togg = [p for p in leaves if p.kind == "t" and p.fid != lv.enabler]
+        # (a switch whose own default depended on a selector it disables would make the application
+        #  ill formed: the selector is not saved while the switch is off - wf_app, notes/C12.md stage 4)
+        togg = [p for p in leaves if p.kind == "t" and p.fid != lv.enabler and p.depends is None]
         if togg:
             lv.self_enabled_by = rng.choice(togg).name
     # children
@@ -761,19 +763,53 @@ def gen_level(rng, T, app, opts):
             kinds.append("arr")
         for kf in kinds:
             c = Child(kf, fresh_name(KIDS))
+            lo = 0
             if kf == "ptr" and lv.enabler:
                 c.enabled_by = [p for p in leaves if p.fid == lv.enabler][0].name
             elif kf == "sub" and rng.random() < opts.get("p_inner", 0.0):
                 # the switch lives inside the sub-tree: "enabled by" = "<child>/<toggle>"
                 nxt = app.levels[T + 1]
-                togg = [p for p in nxt.ports if isinstance(p, Leaf) and p.kind == "t" and p.fid != nxt.enabler]
+                togg = [p for p in nxt.ports if isinstance(p, Leaf) and p.kind == "t" and p.fid != nxt.enabler
+                        and p.depends is None]
                 if togg:
-                    c.enabled_by = c.name + "/" + rng.choice(togg).name
+                    tg = rng.choice(togg)
+                    c.enabled_by = c.name + "/" + tg.name
+                    # every port of the sub-tree waits for this switch (its parent's "enabled by"), so the
+                    # switch must not itself wait for a port of the sub-tree: the metadata would be cyclic
+                    # (D31, notes/C12.md stage 4) unless opts["cyclic"] asks for exactly that
+                    if not opts.get("cyclic"):
+                        tg.rdepends, tg.eb_leaf = [], None
             elif kf in ("sub", "arr") and rng.random() < opts.get("p_soft", 0.0):
                 togg = [p for p in leaves if p.kind == "t" and p.fid != lv.enabler]
                 if togg:
-                    c.enabled_by = rng.choice(togg).name
-            lv.ports.insert(rng.randint(0, len(lv.ports)), c)
+                    tg = rng.choice(togg)
+                    if rng.random() < opts.get("p_ext", 0.5) and tg.name != lv.self_enabled_by:
+                        # the toggle's name extends the sub-tree's name (fx_on / fx/, kit0n / kit#3/): a lookup
+                        # of the sub-tree's address without its '/' would find the leaf by prefix
+                        rename_leaf(lv, leaves, names, tg, c.name + rng.choice(["_on", "on", "0n"]))
+                        lo = lv.ports.index(tg) + 1 if rng.random() < 0.8 else 0
+                    c.enabled_by = tg.name
+            lv.ports.insert(rng.randint(lo, len(lv.ports)), c)
+
+def rename_leaf(lv, leaves, names, leaf, new):
+    """give a leaf of the table under construction another name; every reference inside the table follows"""
+    old = leaf.name
+    leaf.name = new
+    if old in names:
+        names[names.index(old)] = new
+    else:
+        names.append(new)
+    for q in leaves:
+        q.rdepends = [new if x == old else x for x in q.rdepends]
+        if q.eb_leaf == old:
+            q.eb_leaf = new
+        if q.depends == old:
+            q.depends = new
+    for c in lv.ports:
+        if isinstance(c, Child) and c.enabled_by == old:
+            c.enabled_by = new
+    if lv.self_enabled_by == old:
+        lv.self_enabled_by = new
 
 def gen_value_in_range(rng, p):
     """a full value (list) inside the declared range"""
@@ -852,6 +888,11 @@ def gen_incoming(rng, p):
         nums = [n for n, _ in p.opts]
         return (rng.choice(["i", "i", "c"]), rng.choice(nums + [min(nums) - 1, max(nums) + 1, max(nums) + 5]))
     if ek == "s":
+        if getattr(p, "default", None) and rng.random() < 0.3:
+            # a string that shares a prefix with the default (differs only further back)
+            d = bytes(p.default[0])
+            k = rng.randint(0, len(d))
+            return ("s", d[:k] + bytes(rng.choice(b"abcxyz 12") for _ in range(rng.choice([0, 1, 1, 2, 3]))))
         n = rng.choice([0, 1, 2, 3, 5, 7, 15, 20])
         return ("s", bytes(rng.choice(STR_ALPHA) for _ in range(n)))
     raise ValueError(ek)
@@ -1082,12 +1123,12 @@ def static_app():
         _sleaf("i", "mq", [30], depends="mo", presets={2: [32], 3: [33], 4: [34], 5: [35]},
                rdepends=["mp", "m0", "m1", "m6"]),
         _sleaf("f", "mf", [f2b(0.5)], min=f2b(-1.5), max=f2b(2.5)),
-        _sleaf("t", "mt", [0]),
+        _sleaf("t", "ms_on", [0]),
         _sleaf("ai", "ma", [3, 3, 3, 3], n=4),
     ]
     l0.selector = "o0"
     c = Child("sub", "ms")
-    c.enabled_by = "mt"
+    c.enabled_by = "ms_on"
     l0.ports.append(c)
     l1.ports = [_sleaf("i", "sa", [1]), _sleaf("i", "sb", [2], rdepends=["sa"])]
     return app
@@ -1112,9 +1153,9 @@ def static_macro_ports():
         ("mq::i", [P, ("default depends", "mo")] + [("default %d" % i, "%d" % (30 + i)) for i in range(2, 6)] +
          [("default", "30"), dep("mp", "m0", "m1", "m6"), D]),
         ("mf::f", [P, ("min", "-1.5"), ("max", "2.5"), ("scale", "linear"), ("default", "0.5"), D]),
-        ("mt::T:F", [P, ("default", "false"), D]),
+        ("ms_on::T:F", [P, ("default", "false"), D]),
         ("ma#4::i", [P, ("default", "[4x3]"), D]),
-        ("ms/", [("enabled by", "mt"), D]),
+        ("ms/", [("enabled by", "ms_on"), D]),
         ("ms:", [("internal", None), ("documentation", "get obj pointer")]),
         ("sa::i", [P, ("default", "1"), D]),
         ("sb::i", [P, ("default", "2"), dep("sa"), D]),
